@@ -518,7 +518,20 @@ impl<'a> Gen<'a> {
     pub fn mutate(&mut self, doc: &[u8]) -> Vec<u8> {
         let mut v = doc.to_vec();
         let structural = b"{}[],:\"\\-+.0eEtfn \n\x00\x1f\x7f\x80\xc3\xe2\xf0\xff";
-        match self.rng.below(8) {
+        match self.rng.below(10) {
+            8 | 9 => {
+                // corrupt a number: replace one digit of the document by a malformed-number snippet
+                let digits: Vec<usize> = v.iter().enumerate().filter(|(_, b)| b.is_ascii_digit()).map(|(i, _)| i).collect();
+                if !digits.is_empty() {
+                    let i = *self.rng.pick(&digits);
+                    let long = |k: usize| -> Vec<u8> { let mut x = vec![b'7'; k]; x.extend_from_slice(b".5.25"); x };
+                    let snippets: Vec<Vec<u8>> = vec![b"-01".to_vec(), b"01".to_vec(), b"1.".to_vec(), b"1.e2".to_vec(), b".5".to_vec(), b"1e".to_vec(), b"1e+".to_vec(),
+                        b"-".to_vec(), b"--1".to_vec(), b"1.5.25".to_vec(), b"+1".to_vec(), b"0x10".to_vec(), b"1_000".to_vec(), b"-00.5".to_vec(), b"1E-".to_vec(), b"00".to_vec(),
+                        long(31), long(32), long(33), long(63), long(64), long(65)];
+                    let sn = self.rng.pick(&snippets).clone();
+                    v.splice(i..i + 1, sn);
+                }
+            }
             0 => { let n = self.rng.below(v.len() + 1); v.truncate(n); }
             1 if !v.is_empty() => { let i = self.rng.below(v.len()); v.remove(i); }
             2 => { let i = self.rng.below(v.len() + 1); v.insert(i, *self.rng.pick(structural)); }
